@@ -369,6 +369,15 @@ impl Check for C17 {
         if usage.peak as u64 > allowed {
             fail!("heap-growth", "peak heap growth {} bytes (largest single request {}) exceeds 8*max(largest in-limit element {}, capacity {}, 16)+4096 = {}; {}", usage.peak, usage.max_request, legit, cap, allowed, ctx());
         }
+        // an element whose payload is missing costs at most its declared size: that goes for what the error carries too
+        for e in &tr.evs {
+            if let Ev::Err(ErrV::Eof { size: Some(sz), partial: Some(p), .. }) = e {
+                if p.len() > *sz {
+                    fail!("partial-data-exceeds-declared-size", "UnexpectedEOF carries {} bytes of partial data for a declared size of {}; {}", p.len(), sz, ctx());
+                }
+                st.inc("probe_eof_partial_data_within_declared_size");
+            }
+        }
         if c.long_stream {
             st.inc("long_stream_runs");
             st.add("long_stream_elements", tr.evs.iter().filter(|e| matches!(e, Ev::Tag(..))).count() as u64);
